@@ -11,6 +11,9 @@ def dispatch(prop):
     if prop in ("C06", "C07", "C08", "C09", "C10", "C11", "C12", "C17", "C18", "C20"):
         import smc_checks
         return smc_checks.main
+    if prop in ("C14",):
+        import lifecycle_check
+        return lifecycle_check.main
     raise SystemExit(f"unknown property {prop}")
 
 
